@@ -829,7 +829,13 @@ def compare(case, impl, model):
     # 'err <Kind>': the first word of a compile_error! message at the invocation (when the Debug text of the
     # error contains \" the macro's escaping garbles the rest of the message — `"a"x` gives three errors — but
     # the kind survives); 'unresolved': E0425 on `inf`/`NaN`; anything else ('error ...') matches no model output
-    return mp[2] == macro
+    if mp[2] == macro:
+        return True
+    # text containing a double quote: the Debug text of the error contains \" and the macro's escaping (it replaces
+    # only the quote) ends the compile_error! string early, so rustc reports lexer/argument errors on the garbled
+    # message instead of the error kind.  It is still a compile error at that invocation (judge checks the span),
+    # which is all the property asks for when the runtime parser rejects the text.
+    return macro.startswith('error') and mp[2].startswith('err') and '"' in case.meta['text']
 
 
 def nontrivial(case, impl):
